@@ -23,7 +23,7 @@ RULE = (("cases = scripts s1;...;sn: (1) the full predecessor x successor matrix
         "followers are scattered after their head, unsupported statements from %d families inserted at random gaps; (3) 2..5 "
         "regression-corpus scripts concatenated in random order. Non-trivial = the script has >= 2 supported groups; distinct = "
         "distinct script text."
-        " Added after seeded defects: the same table name produced twice with ALTER/INDEX in between, the very same statement text repeated, statements the lexer rejects (known finding unless anything but that exception happens), unterminated ignored lines, stray-semicolon statements, ALTER/INDEX statements after the later of two definitions of a name, statements commented out by a block comment whose closing line continues after '*/', every 3rd ALTER/INDEX history also in a dialect output mode.") % (len(G.SUPPORTED), len(G.UNSUPPORTED) + 1))
+        " Added after seeded defects: the same table name produced twice with ALTER/INDEX in between, the very same statement text repeated, statements the lexer rejects (known finding unless anything but that exception happens), unterminated ignored lines, stray-semicolon statements, ALTER/INDEX statements after the later of two definitions of a name, statements commented out by a block comment whose closing line continues after '*/', every 3rd ALTER/INDEX history also in a dialect output mode, every 6th script also through parse_from_file.") % (len(G.SUPPORTED), len(G.UNSUPPORTED) + 1))
 ASSUMPTIONS = ["every statement ends with ';' at the end of a line (the property's premise)",
                "corpus scripts are used as whole units; concatenations in which two scripts define the same table are skipped",
                "GO / USE / INSERT / GRANT / DELETE lines are the documented ignored-line family (skipped in both modes)"]
@@ -110,6 +110,15 @@ def check_case(ctx, case):
         ctx.violation(kind, dict(case, script=text), {"diffs": d[:4], "observed_n": len(got), "expected_n": len(expected), "explain": explain}, kf=k)
     if STATE.counters.get("contract_violation:statement_buffer", 0) > ncv:
         ctx.obs["statement_buffer_contract_witnesses"] += 1
+    n = ctx.obs["scripts_checked"] = ctx.obs["scripts_checked"] + 1
+    if n % 6 == 0 and "\r" not in text:
+        # the same script read through the file entry point: the statements, and nothing else, decide the result there as well
+        from vf.run import parse_via_file
+        vf = parse_via_file(text)
+        ctx.evaluated()
+        ctx.obs["via_parse_from_file"] += 1
+        if vf[0] != "ok" or vf[1] != r[1]:
+            ctx.violation("parse_from_file_differs", dict(case, script=text), {"via_file": short(vf, 250), "run": short(r[1], 250)})
     ctx.obs["entities_compared"] += len(expected)
     ctx.obs["inserted_unsupported"] += sum(len(v) for v in case.get("inserts", {}).values())
 
